@@ -402,7 +402,8 @@ def _main(a, prop_id, seed, t0):
     }
     min_cases = getattr(mod, "MIN_CASES", {}).get(a.tier, 1) if not a.n else 1
     os.makedirs(os.path.join(ROOT, "evidence"), exist_ok=True)
-    if not a.survey:
+    scratch = a.survey or a.n or os.environ.get("VERIF_COLA_PATH")  # exploratory / mutation runs never touch evidence
+    if not scratch:
         with open(os.path.join(ROOT, "evidence", f"{prop_id}.json"), "w") as fh:
             json.dump(evidence, fh, indent=1, sort_keys=True, default=str)
     print(f"{prop_id} tier={a.tier} seed={seed}: {coverage['evaluations']} cases, "
